@@ -7,6 +7,7 @@
 import Gnet.Spec.ReactorSpec
 import Gnet.Proofs.ReactorBytes
 import Gnet.Spec.ReactorExample
+import Gnet.Proofs.ReactorRuns
 namespace Gnet.Props.C01
 open Gnet.Reactor
 
@@ -18,6 +19,11 @@ theorem inbound_integrity (s s' : RState) (toks : List Tok) (hn : NamesNodup s)
 /-- it holds initially -/
 theorem inbound_init (cfg : Cfg) : InvIn { cfg := cfg } ∧ Quiet { cfg := cfg } ∧ NamesNodup { cfg := cfg } :=
   Proofs.ReactorBytes.inbound_init cfg
+
+/-- the same for whole histories: after ANY number of accepted rounds from the initial state of any configuration -/
+theorem inbound_integrity_all_histories (cfg : Cfg) (rounds : List (List Tok)) (s' : RState)
+    (h : Proofs.ReactorRuns.acceptRounds { cfg := cfg } rounds = .ok s') : InvIn s' :=
+  (Proofs.ReactorRuns.runs_from_init cfg rounds s' h).1
 
 /-! Non-vacuity. A recorded history (Spec/ReactorExample.lean) is accepted round by round, the hypotheses of
 `inbound_integrity` hold of its first state (`inbound_init`), and the accounting it preserves is not empty: four
